@@ -31,3 +31,13 @@ claim("C14", E1,
       "jaxpr -> SMT with symbolic gather/scatter indices as ite chains; per-entry equality obligations",
       "DESIGN.md §3 C14")
 NOT_APPLICABLE.pop("C14", None)
+
+claim("C10", E1,
+      "Bounded symbolic check of ddpg.sample_actions, td3.sample_target_actions (the samplers every continuous-control loop uses), "
+      "DeterministicTanhPolicy (constructor relation + scale_output), the make_* binders, cem_sample and cem_update for action "
+      "dimensions 1-3: bounds, smoothing-noise bound and the 'clip(pi(o) + sigma*scale*n(key))' law are SMT obligations over all "
+      "network outputs, bounds low<high, noise levels and keys.",
+      REAL + " Policy network is a harness-owned FreeNet whose outputs are unconstrained reals.",
+      "jaxpr -> SMT (QF_NRA with tanh/sqrt as axiomatised UFs, PRNG draws as key-determined symbols)",
+      "DESIGN.md §3 C10")
+NOT_APPLICABLE.pop("C10", None)
